@@ -70,6 +70,11 @@ def run(repo, rep):
     from . import c12
 
     rep.run_borrowed(c12, {"C12-b": "C05-a"}, repo)
+    rep.clause("C05-i", "an allocation is a function of the set it is given: the allocator modules keep no process-wide store of earlier results [rule shared with C14-a]; a LiveRange keeps the alignment it was created with; the linear allocator advances its running total to every address it hands out")
+    from . import c14
+
+    rep.run_borrowed(c14, {"C14-a": "C05-i"}, repo, only_sites=("hillclimb_allocation", "greedy_allocation", "tensor_allocation", "live_range"))
+    rule_round9(repo, rep)
     rule_round5(repo, rep)
     rep.clause("C05-g", "HillClimb: a trial that may stop early re-initialises, for every range, each per-trial field the permutation step reads off ranges it did not reach")
     rule_trial_state(repo, rep)
@@ -582,3 +587,55 @@ def rule_round5(repo, rep):
     if n < 1:
         raise AnalysisError("allocator option defaults: no None tests found")
     rep.floor("C05-e", 1)
+
+
+def rule_round9(repo, rep):
+    """(i) `LiveRange.__init__` stores its `alignment` parameter (the allocators place by `get_alignment()`; the storage rounding quantum of
+    the tensor is a different number). `linear_allocate_live_ranges`: on the path that hands out a fresh address the running total is
+    the address itself when the freshness test `address == total_sz` is evaluated - the address statement assigns both, or the total is
+    assigned from the address before the test (CFG: every path from the rounding to the test passes an assignment of total_sz)."""
+    lrm = repo.mod("live_range")
+    init = lrm.func("LiveRange.__init__")
+    if init is None:
+        raise AnalysisError("live_range.LiveRange.__init__ not found")
+    params = [a.arg for a in init.args.args]
+    st = [a for a in ast.walk(init) if isinstance(a, ast.Assign) and str(norm(a.targets[0])) == "self.alignment"]
+    if "alignment" not in params or len(st) != 1:
+        raise AnalysisError("LiveRange.__init__: alignment parameter / store not found")
+    rep.check(isinstance(st[0].value, ast.Name) and st[0].value.id == "alignment", "C05-i", "ethosu/vela/live_range.py:LiveRange.__init__", "`self.alignment = alignment` (the requested placement alignment)",
+              f"`{norm(st[0])}`: the alignment requested through get_or_create_range(tens, alignment) is dropped at creation; a tensor whose range is requested once (the intermediate of a CPU pass) is placed 16-byte aligned only")
+    ta = repo.mod("tensor_allocation")
+    f = ta.func("linear_allocate_live_ranges")
+    site = "ethosu/vela/tensor_allocation.py:linear_allocate_live_ranges"
+    rounds = [a for a in ast.walk(f) if isinstance(a, ast.Assign) and any(str(norm(t)) == "address" for t in a.targets) and "round_up" in str(norm(a.value)) and "total_sz" in str(norm(a.value))]
+    tests = [i for i in ast.walk(f) if isinstance(i, ast.If) and str(norm(i.test)) in ("address == total_sz", "total_sz == address")]
+    if len(rounds) != 1 or len(tests) != 1:
+        raise AnalysisError(f"linear_allocate_live_ranges: rounding statement / freshness test not found ({len(rounds)}, {len(tests)})")
+    both = any(str(norm(t)) == "total_sz" for t in rounds[0].targets)
+    if not both:
+        c = cfg_of(f)
+        src = c.nodes_where(lambda n_: n_.stmt is rounds[0])
+        dst = c.nodes_where(lambda n_: n_.kind == "test" and n_.stmt is tests[0])
+        setters = c.nodes_where(lambda n_: n_.stmt is not None and n_.kind != "test" and isinstance(n_.stmt, ast.Assign) and any(str(norm(t)) == "total_sz" for t in n_.stmt.targets) and str(norm(n_.stmt.value)) == "address")
+        both = bool(src and dst) and not c.path_avoiding(src[0], dst[0], set(setters))
+    # the skip test `if tens in <visited>: continue` is fed with every tensor of the range that just received its address
+    loops = [l for l in ast.walk(f) if isinstance(l, ast.For) and str(norm(l.iter)).endswith(".ranges.items()") and isinstance(l.target, ast.Tuple) and len(l.target.elts) == 2]
+    if len(loops) != 1:
+        raise AnalysisError("linear_allocate_live_ranges: loop over the tensor -> range map not found")
+    tv, rv = (e.id for e in loops[0].target.elts)
+    skips = [i for i in loops[0].body if isinstance(i, ast.If) and isinstance(i.test, ast.Compare) and isinstance(i.test.ops[0], ast.In) and str(norm(i.test.left)) == tv and any(isinstance(x, ast.Continue) for x in i.body)]
+    if len(skips) != 1:
+        raise AnalysisError("linear_allocate_live_ranges: the already-allocated skip test was not found")
+    visited = str(norm(skips[0].test.comparators[0]))
+    adds = []
+    for st in ast.walk(loops[0]):
+        if isinstance(st, ast.AugAssign) and str(norm(st.target)) == visited:
+            adds.append(st.value)
+        if isinstance(st, ast.Call) and isinstance(st.func, ast.Attribute) and str(norm(st.func.value)) == visited and st.func.attr in ("extend", "update", "append", "add") and st.args:
+            adds.append(st if st.func.attr in ("append", "add") else st.args[0])
+    rep.check(len(adds) >= 1 and all(f"{rv}.tensors" in str(norm(a)) and not (isinstance(a, ast.Call) and a.func.attr in ("append", "add")) for a in adds), "C05-i", site,
+              f"after `{rv}.set_address(..)` every tensor of the range (`{rv}.tensors`) is recorded in `{visited}`",
+              f"`{'; '.join(str(norm(a)) for a in adds)}`: a range that holds several tensors (an elementwise OFM written over its IFM, a bypassed reshape) is visited again for its next tensor and gets a second address: "
+              "AssertionError 'Two different addresses cannot be assigned to the same tensor' with --tensor-allocator LinearAlloc")
+    rep.check(both, "C05-i", site, "the running total is moved to the aligned address before `address == total_sz` decides whether the space is fresh",
+              f"`{norm(rounds[0])}`: after an alignment gap the freshness test is false, total_sz is not advanced past the range and the following ranges are laid out over it (addresses [0, 64, 16, 128] for sizes 16, 100, ..)")
